@@ -37,7 +37,7 @@ ASSUMPTIONS = E1_ASSUMPTIONS + [
     "headers <- int, exclude_filters <- scalar string/int); a whitespace-separated string for rst.headers is documented as valid",
     "a wrong-typed value is only placed where no higher-priority source sets the same key (otherwise it is not 'in effect')",
     "the logging section is not compared"]
-PROBES = ["empty_string_on_command_line", "conflict_cli_vs_sfile", "conflict_sfile_vs_user", "conflict_cli_vs_user", "three_way_conflict", "only_default",
+PROBES = ["two_inputs", "empty_string_on_command_line", "conflict_cli_vs_sfile", "conflict_sfile_vs_user", "conflict_cli_vs_user", "three_way_conflict", "only_default",
           "exclude_union_multi_source", "outdir_rel_cwd", "outdir_rel_config_sfile", "outdir_rel_config_user",
           "outdir_rel_config_cli", "user_in_home", "user_in_xdg", "user_in_cminxdir", "sfile_relative", "wrong_type",
           "fault_read_error", "fault_torn", "torn_still_mapping", "pages_land_checked"]
@@ -101,7 +101,7 @@ def strategy(cfg):
             if maybe():
                 # 0 patterns = the key is set, to an empty list (not the same as unset)
                 src[s]["input.exclude_filters"] = [f"pat_{s}_{j}" for j in range(draw(st.integers(0, 3)))] if s != "cli" \
-                    else [f"pat_{s}_{j}" for j in range(draw(st.integers(1, 3)))]
+                    else [["pat_cli_0"], [".hidden_cli", "pat_cli_1"], ["./rel_cli/"], ["..up_cli", ".cache/", "pat_cli_2"]][draw(st.integers(0, 3))]
             if maybe():
                 src[s]["output.directory"] = draw(st.sampled_from(["outdir_" + s, "sub/out_" + s, "{BASE}/abs_out_" + s]
                                                                   + ([""] if s == "cli" else [])))
@@ -130,7 +130,7 @@ def strategy(cfg):
             else:
                 fault = {"kind": "torn", "source": target, "cut": draw(st.integers(1, 400))}
         return {"sources": src, "user_where": user_where, "cwd": cwd, "sfile_path": sfile_path, "sfile_abs": sfile_abs,
-                "wrong": wrong, "fault": fault}
+                "wrong": wrong, "fault": fault, "second_input": draw(st.integers(0, 3)) == 0}
     return world()
 
 
@@ -305,6 +305,10 @@ def evaluate(spec, ctx):
             ctx.probes["wrong_type"] += 1
             expect_loud = True
         argv = build_argv(spec, "{BASE}/w/in/m.cmake")
+        if spec.get("second_input"):
+            core.materialise(base, {"w/in2/k.cmake": "function(zqf1n0 a)\nendfunction()\n"})
+            argv.append("{BASE}/w/in2/k.cmake")
+            ctx.probes["two_inputs"] += 1
         call = {"cwd": spec["cwd"], "argv": argv, "listing_key": 0, "faults": call_faults}
         res = core.run_call(base, call, env=env, snap=False, capture_settings=True)
         ctx.note_call(res)
@@ -333,7 +337,15 @@ def evaluate(spec, ctx):
         cwd_abs = os.path.join(base, spec["cwd"]) if spec["cwd"] else base
         want = ref_settings(defaults, eff_sources, base, cwd_abs, os.path.join(base, spec["sfile_path"]),
                             os.path.join(base, user_rel))
-        got = observed(res.captured[0][1])
+        import copy as _copy
+        snapshots = [observed(_copy.copy(c[1])) for c in res.captured]      # one per input, in order
+        got = snapshots[0]
+        for n_, snap_ in enumerate(snapshots[1:], 2):
+            for k in sorted(want):
+                if k in snap_ and not _same(want[k], snap_[k], base):
+                    viols.append(viol("wrong-value-in-effect",
+                                      f"{k}: for input #{n_} of the same invocation {snap_[k]!r} is in effect, expected {want[k]!r}",
+                                      key=k, rule="later-input"))
         for k in sorted(want):
             if k not in got:
                 viols.append(viol("setting-missing", f"{k} absent from the Settings object"))
